@@ -326,6 +326,20 @@ def check_templates_closed(ctx, repo):
     for t in repo.templates():
         if t.tree is not None and not t.defines():
             block_assigned |= {x.id for x in ast.walk(t.tree) if isinstance(x, ast.Name) and isinstance(x.ctx, ast.Store)}
+    # what a block spliced into a driver may take for granted: the names every driver binds itself
+    # (parameters, assignments, handler names) plus the parameters that tell the two drivers apart
+    bound_per_driver = []
+    for t in repo.templates():
+        if t.tree is not None and t.defines():
+            bnd = {x.id for x in ast.walk(t.tree) if isinstance(x, ast.Name) and isinstance(x.ctx, ast.Store)}
+            for f in ast.walk(t.tree):
+                if isinstance(f, ast.FunctionDef):
+                    bnd |= {x.arg for x in f.args.args + f.args.kwonlyargs} | ({f.args.kwarg.arg} if f.args.kwarg else set()) | ({f.args.vararg.arg} if f.args.vararg else set())
+                if isinstance(f, ast.ExceptHandler) and f.name:
+                    bnd.add(f.name)
+            bound_per_driver.append(bnd)
+    if bound_per_driver:
+        driver_locals = set.intersection(*bound_per_driver) | {'fragments', 'raw', 'offset', 'sync_methods', 'name'}
     driver_imports = set()
     for t in repo.templates():
         if t.tree is not None and t.defines():
@@ -366,7 +380,7 @@ def check_templates_closed(ctx, repo):
             free -= block_assigned          # names bound by the blocks spliced into the driver
         st = 'template %s@%s' % (t.func.qual.split('.')[-1], 'driver ' + ','.join(t.defines()) if is_driver else 'block')
         if free:
-            ctx.violation(rule, t.func, st, 'free names %s are neither parameters, builtins, driver locals nor imported by the generated module: the generated code depends on something outside its own text -- or on a name that other generated text binds in the module namespace, which same-named classes share and the next definition rebinds under the functions already installed' % sorted(free), t.lineno, clause='E', witness=is_driver)
+            ctx.violation(rule, t.func, st, 'free names %s are neither parameters, builtins, driver locals nor imported by the generated module: the generated code depends on something outside its own text -- or on a name that other generated text binds in the module namespace, which same-named classes share and the next definition rebinds under the functions already installed' % sorted(free), t.lineno, clause='E', witness=is_driver or bool(free & {'fields', 'pkt', 'k'}))
         else:
             ctx.holds(rule, t.func, st, 'closed over parameters, builtins and the generated module\'s own imports %s' % sorted(imported | own_imports), t.lineno, clause='E')
     ctx.unit('templates', n)
